@@ -437,6 +437,46 @@ def plan(tier, seed):
     return specs
 
 
+def run_refill(sh, lab):
+    """One I/O object for several dialogues (an interactive session, a test-suite): a question that gave up at the end
+    of the input does not stop later questions from reading input that was supplied afterwards."""
+    from clikit.io import BufferedIO
+
+    for refill in ("set_input", "append_input"):
+        for kind in ("choice", "confirmation", "question"):
+            for first_script in ("", "zz\n", "\n"):
+                io = BufferedIO()
+                io.set_input(first_script)
+                rec = {"kind": "refill", "question": kind, "first_input": first_script, "refill": refill}
+                sh.case(("refill", refill, kind, first_script), True)
+
+                def make():
+                    if kind == "choice":
+                        q = lab.ChoiceQuestion("Pick", ["a", "b", "c"])
+                        q.set_max_attempts(2)
+                        return q, "1\n", "b"
+                    if kind == "confirmation":
+                        return lab.ConfirmationQuestion("Sure?", False), "yes\n", True
+                    return lab.Question("Name?"), "bob\n", "bob"
+
+                q, typed, want = make()
+                try:
+                    first = ("ret", q.ask(io))
+                except RuntimeError as e:
+                    first = ("aborted", str(e))
+                except Exception as e:
+                    first = ("exc", repr(e))
+                getattr(io, refill)(typed)
+                q2, _, _ = make()
+                try:
+                    second = ("ret", q2.ask(io))
+                except Exception as e:
+                    second = ("exc", type(e).__name__, str(e))
+                sh.count("refill_dialogues")
+                if second != ("ret", want):
+                    sh.violate("answer", rec, "after a first dialogue ending in %r, %s(%r) was given and the next question returned %r, expected %r" % (first, refill, typed, second, want))
+
+
 def run(sh, spec):
     if os.environ.get("PATH") != spec["_env"]["PATH"]:
         sh.inconclusive_because("PATH not isolated")
@@ -446,6 +486,8 @@ def run(sh, spec):
     cf = configs()
     if spec["part"] == "enum":
         i, n = spec["slice"]
+        if i == 0:
+            run_refill(sh, lab)
         for k, cfg in enumerate(cf):
             if k % n != i:
                 continue
